@@ -15,7 +15,8 @@ EXPLANATION = (
     "either into a table that is global by design (frozen list with reasons: threads_pids, pids_names, global_strings, "
     "tids_names - keyed by ids carried in the records themselves) or is an item store / mutation whose FIRST key is the "
     "emitting thread's id. R2: no scalar slot (parser.x = ... outside __init__) is written by one invocation and read by "
-    "another. R3: no module-level object or class attribute is mutated, no `global`. R4: every read of a per-thread table "
+    "another. R3: no module-level object or class attribute is mutated, no `global`. R5: the per-thread tables are not built "
+    "with one mutable object handed to several keys (dict.fromkeys(keys, {}), [{}] * n). R4: every read of a per-thread table "
     "is keyed by the emitting thread first. Together: the only state a thread's decoding can observe from other threads is "
     "the by-design tables, which the property's quantifier excludes; equality of results across schedules is argued from "
     "this, not checked."
@@ -233,6 +234,32 @@ def check(repo: Repo, run: Run) -> None:
     tables_read: Set[str] = set()
     total = 0
     tp = repo.cls("traces_parser", "TracesParser")
+    # ---- R5: the per-thread tables start out empty; in particular no construction hands ONE mutable object to several
+    # keys (dict.fromkeys(keys, {}), [{}] * n): threads would then share a window table
+    if "__init__" in tp.methods:
+        irec = interp.run(tp.module, tp.methods["__init__"], self_cls=tp)
+        n_init = 0
+        for e in irec.effects:
+            if e.kind != "attr-store" or (e.path or e.base) != sym.param("self") or e.value is None:
+                continue
+            n_init += 1
+            shared = None
+            for x in sym.walk(e.value):
+                if x.op == "call" and x.a[0].op == "attr" and x.a[0].a[1] == "fromkeys" and len(x.a[1]) == 2 \
+                        and x.a[1][1].op in ("dict", "list", "set", "comp", "new"):
+                    shared = f"dict.fromkeys(..., {sym.pretty(x.a[1][1])[:20]}) gives every key the SAME object"
+                if x.op == "bin" and x.a[0] == "*" and any(o.op == "list" and any(i.op in ("dict", "list", "set") for i in o.a[0])
+                                                            for o in (x.a[1], x.a[2])):
+                    shared = "[<mutable>] * n repeats ONE object"
+            per_thread = str(e.key) in ("on_going_events", "on_going_traces", "last_data_newthread", "last_data_exec", "tids_names")
+            if per_thread or shared:
+                run.ob("R5", tp.module.name, "TracesParser.__init__", f"{e.key} starts without shared per-thread objects", shared is None,
+                       "" if shared is None else
+                       f"self.{e.key} is built with {shared}: threads that are present from the start share one table, so the "
+                       f"windows of one thread are reset and filled by the records of another",
+                       line=e.lineno, witness=None if shared is None else
+                       "a parser constructed with a non-empty thread map; two of those threads with overlapping calls of the same code")
+        run.floor("R5", "attributes initialised by TracesParser.__init__", n_init, 8)
     # which table a state parameter of an action method stands for: both pairing tables (per-thread by design)
     for name, fn in tp.methods.items():
         if name == "__init__":
